@@ -33,7 +33,7 @@ func (p resParams) name() string {
 func perCallThreads() []string {
 	var out []string
 	for _, t := range world.LibThreads() {
-		if strings.Contains(t, "AsyncCall") || strings.Contains(t, "CorrectableCall") || strings.Contains(t, "sendMsg") || strings.Contains(t, "enqueue") {
+		if strings.Contains(t, "AsyncCall") || strings.Contains(t, "CorrectableCall") || strings.Contains(t, "sendMsg") || strings.Contains(t, "enqueue") || strings.Contains(t, "relayResponses") {
 			out = append(out, t)
 		}
 	}
@@ -117,6 +117,12 @@ func resScenario(p resParams) func() {
 					inv.Quorum = p.ending == "early-quorum"
 				}
 			}
+			if p.ending == "all-skipped" {
+				c.Skip = []int{1, 2} // the per-node function gives no node a message
+			}
+			if p.ending == "one-skipped" {
+				c.Skip = []int{2}
+			}
 			if p.ending == "pre-cancelled-node-down" {
 				// node 2 is down and known to be (sender and receiver have noticed) when a call whose
 				// context has already ended is issued
@@ -179,7 +185,7 @@ func resScenario(p resParams) func() {
 				}
 				mc.Quiesce()
 			}
-			if stream && (p.ending == "exhaustion" || p.ending == "handler-error" || p.ending == "crash" || p.ending == "send-fails" || p.ending == "crash-while-issuing") {
+			if stream && (p.ending == "exhaustion" || p.ending == "handler-error" || p.ending == "crash" || p.ending == "send-fails" || p.ending == "crash-while-issuing" || p.ending == "one-skipped") {
 				// a stream call only ends through done, failure of all nodes or its context
 				c.Cancel(context.Canceled)
 				if second != nil {
@@ -265,12 +271,19 @@ func resInstances(tier string) []Instance {
 			}
 		}
 	}
+	// per-node function that gives no node (or only node 1) a message
+	for _, kind := range []string{"QuorumCallPerNodeArg", "QuorumCallAsyncPerNodeArg", "CorrectablePerNodeArg", "CorrectableStreamPerNodeArg", "MulticastPerNodeArg"} {
+		for _, e := range []string{"all-skipped", "one-skipped"} {
+			p := resParams{kind: kind, ending: e, rounds: 2}
+			out = append(out, Instance{Name: p.name(), Bound: 1, Root: resScenario(p)})
+		}
+	}
 	return out
 }
 
 func init() {
 	register(&Check{ID: "C18",
-		Rule:        "9 call variants (13 thorough) x way of ending {quorum before all replies then the straggler answers, exhaustion, cancel then the nodes answer, cancel (an adversary thread) while the nodes answer, deadline with a node that stays silent, node crash + restart, handler error, stream end, the write itself failing (stream dies while the request is blocked in SendMsg on a full window), context already ended before the call (node up, or down and known to be), context ending while the request waits in the send buffer behind a blocked sender, node going down for good while the call waits for it and a second call is being issued} x send buffer {0,1}, each call repeated twice on the same manager; after each round (back-off timers fired) the oracle reads the size of every per-message table of every node's channel (response routers and any other map, by reflection) through an accessor and the live per-call goroutines from the scheduler: zero once every targeted node has answered or its connection failed (one router per round only for a node that never answers), no growth between rounds; all schedules within the deviation bound; an outcome is the instance",
+		Rule:        "9 call variants (13 thorough) x way of ending {quorum before all replies then the straggler answers, exhaustion, cancel then the nodes answer, cancel (an adversary thread) while the nodes answer, deadline with a node that stays silent, node crash + restart, handler error, stream end, the write itself failing (stream dies while the request is blocked in SendMsg on a full window), context already ended before the call (node up, or down and known to be), per-node function skipping every node / one node, context ending while the request waits in the send buffer behind a blocked sender, node going down for good while the call waits for it and a second call is being issued} x send buffer {0,1}, each call repeated twice on the same manager; after each round (back-off timers fired) the oracle reads the size of every per-message table of every node's channel (response routers and any other map, by reflection) through an accessor and the live per-call goroutines (call handlers, send watchers, enqueue helpers, reply relays) from the scheduler: zero once every targeted node has answered or its connection failed (one router per round only for a node that never answers), no growth between rounds; all schedules within the deviation bound; an outcome is the instance",
 		Gen:         resInstances,
 		Assumptions: []string{"router counts are read through an accessor added by overlay; goroutines are identified by their spawn site"},
 	})
